@@ -30,6 +30,7 @@ type c14Case struct {
 	Truncate int `json:"truncate_at,omitempty"` // -1: complete header
 	// stream stage: arrangement of frames (F) and markers (C), segmentation
 	Items string `json:"items,omitempty"`
+	S0    *e2eSettings `json:"first_connection_settings,omitempty"` // reconnect stage
 	Cuts  []int  `json:"cuts,omitempty"`
 	One   bool   `json:"one_byte_reads,omitempty"`
 }
@@ -179,8 +180,25 @@ func runC14Static() (string, string) {
 	return "", ""
 }
 
+// runC14Reconnect: a first connection (3 frames) and then the stream under test on the same daemon instance.
+func runC14Reconnect(c c14Case) (string, string) {
+	s1 := *c.S0
+	items := c14Items(c.S, c.Items)
+	res := runHandleConnTwice(s1, c.S, s1.stream(c14Items(s1, "FFF")), c.S.stream(items))
+	defer os.RemoveAll(res.dir)
+	if res.err != io.EOF {
+		return "C14:reconnect:connection-end", fmt.Sprintf("second connection (%dx%d after %dx%d) items %s: handleConn returned %v, expected io.EOF", c.S.ResX, c.S.ResY, s1.ResX, s1.ResY, c.Items, res.err)
+	}
+	if sig, msg := c.S.compareWithReference(res, c.S.reference(items)); sig != "" {
+		return "C14:reconnect:" + sig, fmt.Sprintf("second connection (%dx%d frames after a %dx%d connection on the same daemon) items %s: %s", c.S.ResX, c.S.ResY, s1.ResX, s1.ResY, c.Items, msg)
+	}
+	return "", ""
+}
+
 func runC14(c c14Case) (string, string) {
 	switch c.Stage {
+	case "reconnect":
+		return runC14Reconnect(c)
 	case "header":
 		return runC14Header(c)
 	case "stream":
@@ -336,8 +354,20 @@ func TestVerifC14(t *testing.T) {
 			}
 		}
 	}
+	// (b2) the camera reconnects to the same daemon instance with another frame size (larger first, then smaller,
+	// and the reverse); markers in the second stream
+	big := s
+	big.ResX, big.ResY = 9, 7
+	for _, pair := range [][2]e2eSettings{{big, s}, {s, big}, {s, s}} {
+		for _, arr := range []string{"FFF", "FCFF", "FFCFCF"} {
+			c := c14Case{Stage: "reconnect", S0: &pair[0], S: pair[1], Items: arr}
+			try(c, len(arr))
+			streamRuns++
+			w.Nontrivial++
+		}
+	}
 	r.Bounds["stream_runs"] = streamRuns
-	r.Rule = "(a) headers.ReadHeaderInfo on a shared bufio.Reader: every camera description of the product resolutions x fps {1,9,60} x models x serials {0,1,12345,2^31-1} x firmware strings (incl. YAML-hostile ones), encoded exactly as the camera daemon does (yaml.v1 Marshal of the map keyed by the headers constants + newline), with a sentinel after the blank line, and EVERY truncation point of a subset; (b) the real handleConn on an in-memory connection: every arrangement of 3 (and 6 thorough) frames with <=2 'clear' markers at any gap, read greedily, one byte at a time, with every single cut point of the byte stream and every pair of cut points around the header end and the markers; files produced are compared with the recordings predicted by driving a real MotionProcessor directly (frames once, in order, reset at each marker); (c) static extraction: marker constant and header keys of both daemons. Non-trivial = every case."
+	r.Rule = "(a) headers.ReadHeaderInfo on a shared bufio.Reader: every camera description of the product resolutions x fps {1,9,60} x models x serials {0,1,12345,2^31-1} x firmware strings (incl. YAML-hostile ones), encoded exactly as the camera daemon does (yaml.v1 Marshal of the map keyed by the headers constants + newline), with a sentinel after the blank line, and EVERY truncation point of a subset; (b) the real handleConn on an in-memory connection: every arrangement of 3 (and 6 thorough) frames with <=2 'clear' markers at any gap, read greedily, one byte at a time, with every single cut point of the byte stream and every pair of cut points around the header end and the markers; files produced are compared with the recordings predicted by driving a real MotionProcessor directly (frames once, in order, reset at each marker); (b2) the camera reconnecting to the same daemon instance with a larger/smaller/equal frame size; (c) static extraction: marker constant and header keys of both daemons. Non-trivial = every case."
 	r.Assumptions = []string{"sendCameraSpecs itself needs camera hardware; its encoder is reproduced (3 lines) and bound to the source by the static key/marker extraction", "serial numbers beyond the platform int are out of scope"}
 	finish(t, r)
 }
